@@ -802,6 +802,19 @@ func Explore(p *Program, fn *ssa.Function, opt Options) *HarnessResult {
 				if opt.StopOnFirst && len(hr.Violations) > 0 {
 					stop = true
 				}
+				// a broken tree can make almost every path a counterexample:
+				// a few hundred (not counting recorded known findings) are
+				// more than the replay needs; stop and say so
+				fresh := 0
+				for _, v := range hr.Violations {
+					if v.Known == "" {
+						fresh++
+					}
+				}
+				if fresh >= 400 {
+					hr.Truncated = true
+					stop = true
+				}
 				if len(hr.Unsupported) > 20 {
 					stop = true
 				}
